@@ -218,3 +218,17 @@ package ivg
 //@   ensures [C12.slice.covers] (and (<= MinX 0.0) (>= MaxX dx) (<= MinY 0.0) (>= MaxY dy))
 //@   ensures [C12.slice.tight] (or (= w dx) (= h dy))
 //@   ensures [C12.slice.align] (and (= MinX (* ax (- dx w))) (= MinY (* ay (- dy h))))
+
+// ---- ivg.Destination as generate sees it (C19): CSel and NSel are observers that report the selectors of the
+// register machine mon.regs (spec library regmon). Assumed of the Destination; proved of render.Renderer and
+// encode.Encoder by the C07 / C04 contracts on their CSel, NSel, SetCSel, SetNSel, SetCReg, SetNReg methods.
+//@ iface Destination.CSel
+//@   mode bits
+//@   needs regmon
+//@   pure
+//@   ensures (= result (reg.csel mon.regs))
+//@ iface Destination.NSel
+//@   mode bits
+//@   needs regmon
+//@   pure
+//@   ensures (= result (reg.nsel mon.regs))
